@@ -25,5 +25,11 @@ func AllocPacketID(maxTTL uint8) uint16 {
 	// bump up the packetID by the range of the TTL
 	// we need to subtract the maxTTL to get the start of the range
 	next := curPacketID.Add(maxTTL32) - maxTTL32
+	// the IDs of this range are next+1 .. next+maxTTL (mod 2^16). An IP ID of zero does not survive sending:
+	// with IP_HDRINCL the kernel fills in its own ID when the field is zero (raw(7)), and the ICMP reply then
+	// quotes the kernel's ID, so that TTL's hop would be lost. Skip a range that contains zero.
+	for uint32(uint16(next))+maxTTL32 >= 1<<16 {
+		next = curPacketID.Add(maxTTL32) - maxTTL32
+	}
 	return uint16(next)
 }
